@@ -48,7 +48,7 @@ def walk_rule(ctx, cfg):
                                                          "aliasing inside the shared tokenizer)")
                   if bad else "has no interior mutability / raw pointer"),
                {"via": e["via"], "flags": e["flags"]})
-    ctx.floor("SHARE-WALK", "types reached from Tokenizer (cfg %s)" % cfg, n, 30)
+    ctx.floor("SHARE-WALK", "types reached from Tokenizer (cfg %s)" % cfg, n, 45)
     ctx.count("SHARE", "types walked cfg " + cfg, n)
 
 
